@@ -23,6 +23,23 @@ def run_case(c):
         import odak.learn.raytracing as LR
         ray = torch.tensor(c['rays'], dtype=torch.float32)
         sph = torch.tensor(c['sphere'], dtype=torch.float32)
+        prov = c.get('provenance', 'plain')
+        if prov == 'leaf':                      # the caller learns the rays / the sphere
+            ray.requires_grad_(True)
+            sph.requires_grad_(True)
+        elif prov == 'scaled':                  # results of earlier differentiable computations
+            ray = torch.tensor(c['rays'], dtype=torch.float32, requires_grad=True) * 1.
+            sph = torch.tensor(c['sphere'], dtype=torch.float32, requires_grad=True) * 2. / 2.
+        elif prov == 'two_points':              # rays built by the library from learned start points
+            start = ray[:, 0].clone().requires_grad_(True)
+            end = (ray[:, 0] + ray[:, 1]).detach()
+            built = LR.create_ray_from_two_points(start, end)
+            ok = torch.isfinite(built).all(dim=-1).all(dim=-1)
+            ray = torch.where(ok.reshape(-1, 1, 1), built, ray)
+        elif prov == 'refracted':               # rays that left another surface
+            nrm0 = torch.stack([ray[:, 0], torch.tensor([[0., 0., 1.]]).repeat(ray.shape[0], 1)], dim=1)
+            lead = torch.tensor(1.0, requires_grad=True)
+            ray = torch.stack([ray[:, 0] * lead, ray[:, 1] * lead], dim=1) + 0. * nrm0
         r, nrm, dist, check = LR.intersect_w_sphere(ray, sph, number_of_steps=c.get('steps', 300), learning_rate=c.get('lr', 0.2))
         return {'check': check.reshape(-1).tolist(), 'distance': dist.detach().reshape(-1).tolist(),
                 'points': r.detach().reshape(-1, 2, 3)[:, 0].tolist()}
